@@ -232,6 +232,13 @@ func readPieces(rc io.ReadCloser, pieces []int) ([]byte, error) {
 	}
 	var out []byte
 	for i := 0; ; i++ {
+		if i == len(pieces) && len(pieces)%2 == 0 {
+			// the caller has looked at the beginning piece by piece and now copies the rest
+			// (io.Copy prefers the reader's own WriteTo when it has one)
+			var rest bytes.Buffer
+			_, err := io.Copy(&rest, rc)
+			return append(out, rest.Bytes()...), err
+		}
 		sz := pieces[i%len(pieces)]
 		if sz <= 0 {
 			sz = 1
